@@ -4,6 +4,9 @@ manifest stays valid while checks are added)."""
 import json, os
 ROOT = os.path.dirname(os.path.abspath(__file__))
 CHECKS = {
+ "C11": dict(level="exploration", technique="online trace automaton over the emitted stream (Announced set fed by independently decoded, completely emitted FDT instances; pending-instance and publish-count rules) on random operation interleavings",
+     text="Twelve thousand (quick) random add/publish/remove/read interleavings with objects added at arbitrary packet indices, multi-packet FDTs, double/forgotten publishes, carousel, start times, 1-4 queues, multiplexing, both publish modes and both polling disciplines run on the real sender; every object packet must belong to a TOI listed by an FDT instance already completely on the wire, never interrupt a partly emitted instance, and never overtake an instance that an explicit publish made pending. Held on the scripts run.",
+     note="trusted: independent decoder and reassembly; publish() errors skip the script (precondition)", ref="DESIGN.md §5 C11"),
  "C10": dict(level="exploration", technique="reference-model monitor over emitted FDT instances: independent reassembly, model set timeline from the operation log and Start/Stop events, expat + xmllint/XSD offline checker, id/Expires/supersession trace checks",
      text="Thousands of random add/publish/remove/set_complete scripts with hostile metadata, all schemes, both publish modes, FDT cenc, start ids around the 2^20 wrap and durations from 2 s to 3 d run on the real sender over several expiry periods; every FDT instance on the wire is reassembled by the independent decoder, parsed with expat and validated against the repository XSD with xmllint, and compared field by field and listing by listing with what the sender was given; ids, Expires, id reuse, fdt_received identity and bounded supersession (50 ms polling) are judged on the trace. Held on the scripts run.",
      note="trusted: expat, xmllint+XSD, independent decoder, model timeline; known findings KF-C10-attr-whitespace, KF-C10-supersession-*", ref="DESIGN.md §5 C10"),
